@@ -24,6 +24,10 @@ func NondetBytes(tag string) []byte              { sym(); return nil }
 func NondetLen(tag string, lo, hi int) int       { sym(); return 0 }
 func NondetAddr(tag string) string               { sym(); return "" }
 func NondetTime(tag string) time.Time            { sym(); return time.Time{} }
+// And/Or/Implies/Not evaluate both operands (no short-circuit branching in harness code).
+func And(a, b bool) bool                         { sym(); return false }
+func Or(a, b bool) bool                          { sym(); return false }
+func Implies(a, b bool) bool                     { sym(); return false }
 func Assume(b bool)                              { sym() }
 func Assert(b bool, id string)                   { sym() }
 func Cover(id string)                            { sym() }
